@@ -229,6 +229,8 @@ var c07corpus = []string{
 	"a := 1 +",                  // error before the end
 	") a b c d e f g h",         // error at the first token: lexer left blocked (F11)
 	"a b c d e f g h",           // extra token after a complete statement, more tokens pending
+	"sink s kindmatch [\"a\"], \"", // lexical error right after the comma between two sink clauses
+	"sink s kindmatch [\"a\"],", "f(1, \"", "[1, \"", "{1:2, \"", "func f(a, \"", "try {} except \"a\", \"",
 	"a := 1 ; b c d e f g h i",  //
 	"mutex \"a\" {}", "import \"a\" as \"b\"", "func \"f\"() {}", "try {} except \"a\" as \"b\" {}", "sink \"s\" {}", "a.\"b\"", "try {} except \"a\" \"b\" {}",
 	"if 1 + { { a } { b }",      // temporary "{" entry used as a null denotation: node of kind ""
@@ -507,8 +509,79 @@ func (g c07gen) program() string {
 	return strings.Join(xs, g.pick("\n", "\n", " ; ", "\n\n"))
 }
 
+
+// one valid program per statement kind for the fault injection at every token boundary
+var c07faultProgs = []string{
+	"sink rule1 kindmatch [\"core.*\", \"x\"], scopematch [\"data.write\"], statematch {\"val\" : null, \"a\" : 1}, priority 10, suppresses [\"rule2\"] { log(\"rule1\", event) ; a := 1 }",
+	"sink s\n kindmatch [\"a\"]\n priority 1\n {\n x := 1\n }",
+	"import \"foo/bar\" as fb",
+	"func add(a, b=2, c=\"x\") {\n return a + b\n}",
+	"f := func (x, y=1) { return x * y }",
+	"if a == 1 { b := 1 } elif a == 2 { b := 2 ; c := 3 } elif c { d } else { b := 3 }",
+	"for i in range(1, 10) { if i % 2 == 0 { continue } ; log(i) ; break }",
+	"for [k, v] in m { log(k, v) }",
+	"for a > 0 { a := a - 1 }",
+	"try { raise(\"MyError\", \"detail\", [1]) } except \"MyError\", \"Other\" as e { log(e) } except e { log(1) } except { log(0) } otherwise { log(2) } finally { log(3) }",
+	"mutex foo { a := 1 ; b := 2 }",
+	"func f() {\n return\n}\nreturn f(1) + 2",
+	"a := [1, 2, [3, 4], {\"x\" : 1, \"y\" : [2, {1 : 2}]}]",
+	"x := a.b.c(1, d(2)(3), [4])(5)[6].e[f.g[7]].h",
+	"let a := 1\nlet b := a",
+	"[a, b] := [1, 2]\nlet [c, d] := x",
+	"a := not (b and c or d) ; e := -a + +1 * 2 / 3 // 4 % 5 ; g := a like \"x\" or 1 in [1] or 2 notin [3] or \"ab\" hasprefix \"a\" or \"ab\" hassuffix \"b\" ; h := 1 >= 2 or 3 <= 4 or 5 != 6 or 7 > 8 or 9 < 10 == true",
+	"# head\na := 1 # trailing\n/* block */ b := \"s{{a}}\" /* after */\nc := r\"raw\" ; d := 'single'",
+}
+
+// c07faults: what is injected at a token boundary. keep = the rest of the program follows.
+var c07faults = []struct {
+	text string
+	keep bool
+}{
+	{"", false},      // end of input
+	{"\"", false},    // unclosed string
+	{"$", true},      // invalid identifier character
+	{"r\"", false},   // unclosed raw string
+	{"/*", false},    // unclosed comment
+	{"$", false},     //
+	{")", true},      // stray closers and separators
+	{"}", true},      //
+	{"]", true},      //
+	{",", true},      //
+	{";", true},      //
+}
+
+// c07boundaries: byte offsets between the tokens of src (start of every token but the first, end of input)
+func c07boundaries(src string) []int {
+	lr := guarded(3*time.Second, func() (interface{}, error) { return parser.LexToList("c07", src), nil })
+	if lr.TimedOut || lr.Panicked {
+		return nil
+	}
+	var res []int
+	last := -1
+	for i, t := range lr.Val.([]parser.LexToken) {
+		if i == 0 || t.ID == parser.TokenEOF || t.Pos <= last || t.Pos > len(src) {
+			continue
+		}
+		res = append(res, t.Pos)
+		last = t.Pos
+	}
+	return append(res, len(src))
+}
+
+func c07inject(src string, at int, f int) string {
+	ft := c07faults[f]
+	pre := src[:at]
+	if ft.text == "" {
+		return pre
+	}
+	if ft.keep {
+		return pre + " " + ft.text + " " + src[at:]
+	}
+	return pre + " " + ft.text
+}
+
 func runC07(c *Ctx) error {
-	c.Rule = "source texts: fixed corpus (witnesses of the repaired defects first); all sequences of up to 3 lexemes over the 14-lexeme alphabet {a, 1, \"s\", ( ) { } [ ] ; , := if return} (thorough: up to 3 over 20 lexemes adding + . newline for try func, and up to 4 over the 14), seeded longer ones over a wider alphabet; all byte strings up to length 3 over 12 bytes incl. quote, 0xff, control characters; seeded grammar-generated programs (expressions, assignments, if/elif/else, for, try/except/otherwise/finally, mutex, func, return, import, sink, comments) and single mutations of them; seeded token-level mutations (delete, duplicate, swap, stray terminator/bracket/keyword, truncate) of valid programs and of /repo's example programs; non-trivial = at least 2 tokens; distinct by source bytes"
+	c.Rule = "source texts: fixed corpus (witnesses of the repaired defects first); all sequences of up to 3 lexemes over the 14-lexeme alphabet {a, 1, \"s\", ( ) { } [ ] ; , := if return} (thorough: up to 3 over 20 lexemes adding + . newline for try func, and up to 4 over the 14), seeded longer ones over a wider alphabet; all byte strings up to length 3 over 12 bytes incl. quote, 0xff, control characters; fault injection at every token boundary of one valid program per statement kind (end of input, unclosed string / raw string / comment, invalid character, stray ) } ] , ; — quick: the first three everywhere and the others in rotation); seeded grammar-generated programs (expressions, assignments, if/elif/else, for, try/except/otherwise/finally, mutex, func, return, import, sink, comments) and single mutations of them; seeded token-level mutations (delete, duplicate, swap, stray terminator/bracket/keyword, truncate) of valid programs and of /repo's example programs; non-trivial = at least 2 tokens; distinct by source bytes"
 	c07header := "Set Warnings \"-abstract-large-number\".\nFrom Coq Require Import BinInt.\nFrom Ecal Require Import Common.Bytes Common.Ast Spec.ParseSpec Model.Parser Run.RunC07 Run.RunC07Lex."
 	c.BeginCases(c07header, "lcase", 1200)
 	st := &c07state{}
@@ -573,7 +646,7 @@ func runC07(c *Ctx) error {
 
 	// seeded longer sequences over a wider alphabet
 	wide := append(append([]string{}, alpha...), "else", "elif", "except", "finally", "otherwise", "as", "in", "mutex", "sink", "import", "kindmatch", "not", "-", "*", ":", "=", "==", "true", "b", "#c\n", "/*c*/", "\"")
-	for i := 0; i < c.Pick(2500, 60000); i++ {
+	for i := 0; i < c.Pick(1500, 60000); i++ {
 		n := 4 + c.Rng.Intn(7)
 		w := make([]string, n)
 		for k := range w {
@@ -621,6 +694,25 @@ func runC07(c *Ctx) error {
 		}
 		add(string(w), "bytes_random")
 	}
+
+	// fault injection at every token boundary of one valid program per statement kind:
+	// quick = end of input, unclosed string and invalid character at every boundary plus one of
+	// the other faults in rotation; thorough = every fault at every boundary
+	c.BeginCases(c07header, "lcase", 600)
+	nfault := 0
+	for _, p := range c07faultProgs {
+		add(p, "fault_base")
+		for bi, at := range c07boundaries(p) {
+			for f := range c07faults {
+				if !c.Thorough() && f >= 3 && f != 3+bi%(len(c07faults)-3) {
+					continue
+				}
+				add(c07inject(p, at, f), "fault_injection")
+				nfault++
+			}
+		}
+	}
+	c.Extra["fault_injection_cases"] = nfault
 
 	// generated programs and single mutations of them (larger cases: smaller shards)
 	c.BeginCases(c07header, "lcase", 350)
